@@ -130,11 +130,11 @@ fn c04_competitor_records() {
     // header-only records at, below and beyond the tip, with hashes sorting before and after the active ones
     { cases += 1; let mut d = simple_dir(&chain);
       // hashes sorting before (00..) and after (ff..) every active hash; statuses: header-only, failed without data
-      for (i, h) in [1u64, 3, 4, 5, 9].iter().enumerate() { for fill in [0x00u8, 0xff] { for (j, st) in [ST_HEADER_ONLY, 1, 34, 66, 33, 98].iter().enumerate() {
+      for (i, h) in [1u64, 3, 4, 5, 9].iter().enumerate() { for fill in [0x00u8, 0xff] { for (j, st) in [ST_HEADER_ONLY, 1, 34, 66, 33, 98, 258].iter().enumerate() {
           let mut hash = [fill; 32]; hash[31] = (i * 8 + j) as u8;
           d.recs.push(IndexRec { hash, version: 0x2000_0800, height: *h, status: *st, ntx: 0, file: 0, offset: 0, header: None }); } } }
       d.write();
-      cmp_delivery(suite, "C04:header_only_records_never_delivered", "header-only / failed-without-data records (status 2,1,34,66,33,98) at heights 1,3,4,5,9, hashes sorting before and after", fetch_all(&d, "bitcoin", 5, false), &want);
+      cmp_delivery(suite, "C04:header_only_records_never_delivered", "header-only / failed-without-data records (status 2,1,34,66,33,98 and 258 = VALID_TREE|ASSUMED_VALID) at heights 1,3,4,5,9, hashes sorting before and after", fetch_all(&d, "bitcoin", 5, false), &want);
       let got = drive(d.path(), "bitcoin", 0, None, false);
       let n = got.as_ref().map(|v| v.iter().filter(|e| matches!(e, Event::Block(..))).count()).unwrap_or(0);
       cases += 1;
@@ -176,6 +176,20 @@ fn c04_competitor_records() {
             check(!silent, suite, "C04:verify_never_delivers_a_non_linking_sequence", &format!("stale sibling with data at height 2 (status {}) sorting after the active one, --verify", status), "heights 1..3 delivered without error", "an error at height 2 or 3");
         }
     } }
+    // several competitors at one height: two never-connected stale siblings with data whose hashes both sort BEFORE the active
+    // block's hash (the order the program handles), at two different heights
+    { cases += 1; let mut d = simple_dir(&chain);
+      for (height, tag) in [(2u64, 800u32), (3, 900)] { for k in 0..2u32 {
+          let mut stale = BlockSpec::new(chain[height as usize - 1].hash(), tag + k, vec![TxSpec::new(vec![TxIn::coinbase(tag + k)], vec![TxOut::new(1, vec![0x51])])]);
+          loop { if stale.hash() < chain[height as usize].hash() { break; } stale.nonce += 1; }
+          let off = d.put_block(0, 0xd9b4bef9, &stale.ser(), &[]);
+          d.recs.push(IndexRec { hash: stale.hash(), version: 1, height, status: 3 | 8, ntx: 1, file: 0, offset: off, header: None }); } }
+      d.write();
+      cmp_delivery(suite, "C04:active_chain_only/stale_sibling_with_data_sorting_earlier", "two stale siblings with data at each of heights 2 and 3 (status 11), all hashes sorting before the active one", fetch_all(&d, "bitcoin", 5, false), &want);
+      let got = drive(d.path(), "bitcoin", 0, None, false);
+      let n = got.as_ref().map(|v| v.iter().filter(|e| matches!(e, Event::Block(..))).count()).unwrap_or(0);
+      cases += 1;
+      check(n == 5, suite, "C04:active_chain_only/stale_sibling_with_data_sorting_earlier", "two stale siblings per height: whole run", &format!("{} blocks delivered ({:?})", n, got.as_ref().err()), "5 blocks"); }
     finish(suite, cases);
 }
 
@@ -326,6 +340,35 @@ fn c09_bitcoin_genesis_accepted() {
         let rejected = match &r { Ok(v) => v[0].is_err(), Err(_) => true };
         check(rejected, suite, "C09:verify_rejects_changed_block", &format!("bitcoin genesis with bit 2 of byte {} (coinbase transaction) flipped, header intact, --verify", pos), "accepted", "Err at height 0");
     }
+    // a copy of the (real, published) genesis block swapped in ABOVE height 0: self-consistent, prev-hash all zero, hashes to the
+    // published genesis hash -- and still a foreign block at that height
+    { let mut b1 = BlockSpec::new(sha256d_of(&raw[..80]), 1, vec![TxSpec::new(vec![TxIn::coinbase(1)], vec![TxOut::new(1, vec![0x51])])]);
+      b1.merkle = None;
+      let b2 = BlockSpec::new(b1.hash(), 2, vec![TxSpec::new(vec![TxIn::coinbase(2)], vec![TxOut::new(2, vec![0x51])])]);
+      let b3 = BlockSpec::new(b2.hash(), 3, vec![TxSpec::new(vec![TxIn::coinbase(3)], vec![TxOut::new(3, vec![0x51])])]);
+      for at in [1u64, 2, 3] { for start in [0u64, at] {
+          cases += 1;
+          let mut d = DataDir::new();
+          let off = d.put_block(0, 0xd9b4bef9, &raw, &[]);
+          d.recs.push(IndexRec { hash: sha256d_of(&raw[..80]), version: 1, height: 0, status: ST_ACTIVE, ntx: 1, file: 0, offset: off, header: None });
+          for (h, b) in [(1u64, &b1), (2, &b2), (3, &b3)] {
+              if h == at { let off = d.put_block(0, 0xd9b4bef9, &raw, &[]);
+                  d.recs.push(IndexRec { hash: b.hash(), version: 1, height: h, status: ST_ACTIVE, ntx: 1, file: 0, offset: off, header: None }); }
+              else { d.add(0, h, b, ST_ACTIVE); } }
+          d.write();
+          let r = fetch(d.path(), "bitcoin", start, None, true, &[at]);
+          let rejected = match &r { Ok(v) => v[0].is_err(), Err(_) => true };
+          check(rejected, suite, "C09:verify_rejects_foreign_block", &format!("bitcoin: the bytes at height {}'s recorded position replaced by a copy of the genesis block, --verify --start {}", at, start), "accepted", &format!("Err at height {}", at));
+      } }
+      // (and the untouched chain genesis <- b1 <- b2 <- b3 is accepted)
+      { cases += 1; let mut d = DataDir::new();
+        let off = d.put_block(0, 0xd9b4bef9, &raw, &[]);
+        d.recs.push(IndexRec { hash: sha256d_of(&raw[..80]), version: 1, height: 0, status: ST_ACTIVE, ntx: 1, file: 0, offset: off, header: None });
+        for (h, b) in [(1u64, &b1), (2, &b2), (3, &b3)] { d.add(0, h, b, ST_ACTIVE); }
+        d.write();
+        let r = fetch(d.path(), "bitcoin", 0, None, true, &[0, 1, 2, 3]);
+        check(matches!(&r, Ok(v) if v.iter().all(|x| matches!(x, Ok(Some(_))))), suite, "C09:verify_accepts_consistent_block", "bitcoin genesis followed by three consistent blocks, --verify", &format!("{:?}", r.as_ref().map(|v| v.iter().map(|x| x.is_ok()).collect::<Vec<_>>())), "all accepted"); }
+    }
     finish(suite, cases);
 }
 
@@ -344,6 +387,8 @@ fn c11_xor_directories() {
     // keys that look periodic without being so (a suffix equals a prefix, the period does not divide the length)
     keys.push(vec![0xa1, 0x3c, 0x5e, 0x77, 0x09, 0xd2, 0x4b, 0xa1]); keys.push(vec![0x5a, 0xc3, 0x5a]); keys.push(vec![0x11, 0x22, 0x33, 0x11, 0x22]);
     keys.push(vec![7, 7, 7, 7, 7, 7, 7, 8]); keys.push(vec![0xab, 0xcd, 0xab, 0xcd, 0xab, 0xcd, 0xab, 0xcd]);
+    // keys whose BYTES happen to be printable text: hex digits, decimal digits, whitespace, a newline at the end -- xor.dat is binary
+    for k in [&b"deadbeef"[..], b"DEADBEEF", b"00000000", b"12345678", b"0x1f", b"ab", b"a", b"        ", b"key\n", b"\n", b"\r\n\r\n", b"0123456789abcdef", b"\0\0\0\0\0\0\0\x01"] { keys.push(k.to_vec()); }
     let mut cases = 0;
     for k in keys { for layout in 0..2 {
         cases += 1;
@@ -354,6 +399,16 @@ fn c11_xor_directories() {
         d.xor_key = Some(k.clone());
         d.write();
         cmp_delivery(suite, "C11:xor_directory_reads_like_plaintext", &format!("key {} layout {}", hex(&k), layout), fetch_all(&d, "bitcoin", 6, false), &want);
+        // the content under the header too: every transaction id (it covers every byte of every field, also of fields longer
+        // than the 32 KiB read buffer)
+        match fetch_blocks(d.path(), "bitcoin", 0, 5, false) {
+            Err(m) => fail(suite, "C11:xor_directory_reads_like_plaintext", &format!("key {} layout {}", hex(&k), layout), &m, "all blocks parsed"),
+            Ok(bs) => for (h, (got, wantb)) in bs.iter().zip(chain.iter()).enumerate() {
+                let g: Vec<[u8; 32]> = got.txs.iter().map(|t| t.hash.to_byte_array()).collect();
+                let w: Vec<[u8; 32]> = wantb.txs.iter().map(|t| t.txid()).collect();
+                check(g == w, suite, "C11:xor_directory_reads_like_plaintext", &format!("key {} layout {} height {}: transaction ids", hex(&k), layout, h), &format!("{:?}", g.iter().map(short).collect::<Vec<_>>()), &format!("{:?}", w.iter().map(short).collect::<Vec<_>>()));
+            }
+        }
     } }
     finish(suite, cases);
 }
@@ -374,9 +429,14 @@ fn c17_open_files_bounded() {
         ("overlapping spans", Box::new(|h| if h % 5 == 4 { h / 5 + 1 } else { h / 5 })),
         ("file revisited late", Box::new(|h| if h == 20 { 0 } else { h / 4 })),
         ("descending files", Box::new(|h| 40 - h / 3)),
+        ("genesis alone in its file", Box::new(|h| if h == 0 { 0 } else { 1 + (h - 1) / 3 })),
+        ("every block in its own file", Box::new(|h| h)),
+        ("file numbers 256 apart", Box::new(|h| (h / 3) * 256)),
+        ("file numbers 65536 apart", Box::new(|h| (h / 3) << 16)),
+        ("file numbers 2^32 apart", Box::new(|h| (h / 3) << 32)),
     ];
     for (name, f) in layouts.iter() {
-        for (s, e) in [(0u64, None), (5, Some(17)), (7, None)] { for mode in 0..4 {
+        for (s, e) in [(0u64, None), (5, Some(17)), (7, None), (0, Some(10))] { for mode in 0..4 {
             let verify = mode == 1;
             let mut d = DataDir::new();
             // mode 3: blocks of a file stored in descending height order (higher heights at lower offsets)
